@@ -87,6 +87,11 @@ def run_property(pid, tier, seed, only=None):
                 violations.append(r)
         elif r.verdict == "crash":
             crashes.append(r)
+        elif r.replay and r.replay.get("confirmed") and r.name not in open_findings:
+            # undecided by the verifier (engine limit), but the contract's native cross-check of the same function
+            # fails on this tree with a concrete input: a violation, reported with that input
+            r.detail = "verifier undecided (%s); the native cross-check of this function fails on this tree" % r.detail[:300]
+            violations.append(r)
         else:
             undecided.append(r)
     positive = {(r.target, r.clause, r.case): r.verdict for r in obls + bounded}
